@@ -57,3 +57,179 @@ def overlay(seed: int = 0, root: str = REPO_ROOT):
             ast.parse(new)
             out[rel] = new
     return out, mapping
+
+
+# --------------------------------------------------------------------------
+def both_overlay(seed: int = 0, root: str = REPO_ROOT):
+    """Private rename and alpha renaming together."""
+    ov1, mapping = overlay(seed, root)
+    ov2, n = alpha_overlay(seed, root, base=ov1)
+    out = dict(ov1)
+    out.update(ov2)
+    return out, len(mapping) + n
+
+
+def alpha_overlay(seed: int = 0, root: str = REPO_ROOT, only: str | None = None, base: dict | None = None):
+    """Alpha-renaming overlay: in every function of the package every *local*
+    variable (assignment / loop / with / comprehension / walrus / except
+    targets; not parameters, not globals) gets an unrelated name, consistently
+    within the function and its nested functions.  Behaviour-preserving by
+    construction; the sources are re-emitted with ast.unparse."""
+    import builtins
+
+    rnd = random.Random(seed)
+    out = {}
+    n_renamed = 0
+    for dp, _dn, fn in os.walk(os.path.join(root, "job_shop_lib")):
+        for f in fn:
+            if not f.endswith(".py"):
+                continue
+            full = os.path.join(dp, f)
+            rel = os.path.relpath(full, root)
+            if only is not None and only not in rel:
+                continue
+            if base is not None and rel in base:
+                src = base[rel]
+            else:
+                with open(full, encoding="utf-8") as fh:
+                    src = fh.read()
+            tree = ast.parse(src)
+            module_names = set(dir(builtins))
+            for st in ast.walk(tree):
+                if isinstance(st, (ast.Import, ast.ImportFrom)):
+                    module_names |= {(a.asname or a.name).split(".")[0] for a in st.names}
+            for st in tree.body:
+                if isinstance(st, (ast.FunctionDef, ast.ClassDef, ast.AsyncFunctionDef)):
+                    module_names.add(st.name)
+                elif isinstance(st, (ast.Assign, ast.AnnAssign)):
+                    for t in (st.targets if isinstance(st, ast.Assign) else [st.target]):
+                        for x in ast.walk(t):
+                            if isinstance(x, ast.Name):
+                                module_names.add(x.id)
+
+            def top_functions(body):
+                for st in body:
+                    if isinstance(st, (ast.FunctionDef, ast.AsyncFunctionDef)):
+                        yield st
+                    elif isinstance(st, ast.ClassDef):
+                        yield from top_functions(st.body)
+
+            changed = False
+            for fdef in top_functions(tree.body):
+                params = set()
+                declared = set()
+                bound = set()
+                inner_names = set()
+                for n in ast.walk(fdef):
+                    if isinstance(n, (ast.FunctionDef, ast.AsyncFunctionDef, ast.Lambda)):
+                        a = n.args
+                        params |= {p.arg for p in a.posonlyargs + a.args + a.kwonlyargs}
+                        if a.vararg:
+                            params.add(a.vararg.arg)
+                        if a.kwarg:
+                            params.add(a.kwarg.arg)
+                        if not isinstance(n, ast.Lambda) and n is not fdef:
+                            inner_names.add(n.name)
+                    elif isinstance(n, (ast.Global, ast.Nonlocal)):
+                        declared |= set(n.names)
+                    elif isinstance(n, ast.Name) and isinstance(n.ctx, (ast.Store, ast.Del)):
+                        bound.add(n.id)
+                    elif isinstance(n, ast.ExceptHandler) and n.name:
+                        bound.add(n.name)
+                locals_ = sorted(x for x in bound - params - declared - module_names - inner_names if not x.startswith("__") and x != "_")
+                if not locals_:
+                    continue
+                codes = list(range(len(locals_)))
+                rnd.shuffle(codes)
+                mapping = {x: f"v{c}_{rnd.randrange(100, 999)}" for x, c in zip(locals_, codes)}
+                n_renamed += len(mapping)
+
+                class R(ast.NodeTransformer):
+                    def visit_Name(self, n):
+                        if n.id in mapping:
+                            n.id = mapping[n.id]
+                        return n
+
+                    def visit_ExceptHandler(self, n):
+                        if n.name in mapping:
+                            n.name = mapping[n.name]
+                        self.generic_visit(n)
+                        return n
+
+                R().visit(fdef)
+                changed = True
+            if changed:
+                out[rel] = ast.unparse(tree) + "\n"
+    return out, n_renamed
+
+
+# --------------------------------------------------------------------------
+def equivalences_overlay(seed: int = 0, root: str = REPO_ROOT, base: dict | None = None):
+    """Mechanical, behaviour-preserving re-spellings applied everywhere they
+    are safe:  a < b  ->  b > a  (and <=, ==, != likewise; operands must be
+    pure access paths / constants / len() of one);  if c: A else: B  ->
+    if not c: B else: A  (plain two-branch ifs);  x += k -> x = x + k  (k an
+    integer constant, x a name or attribute path)."""
+    from ..normalize import _is_path_expr
+
+    rnd = random.Random(seed)
+    flips = {ast.Lt: ast.Gt, ast.Gt: ast.Lt, ast.LtE: ast.GtE, ast.GtE: ast.LtE, ast.Eq: ast.Eq, ast.NotEq: ast.NotEq}
+
+    def pure(e):
+        if _is_path_expr(e):
+            return True
+        return isinstance(e, ast.Call) and isinstance(e.func, ast.Name) and e.func.id == "len" and len(e.args) == 1 and _is_path_expr(e.args[0])
+
+    n_changes = [0]
+
+    class T(ast.NodeTransformer):
+        def visit_Compare(self, n):
+            self.generic_visit(n)
+            if len(n.ops) == 1 and type(n.ops[0]) in flips and pure(n.left) and pure(n.comparators[0]) and rnd.random() < 0.7:
+                n_changes[0] += 1
+                return ast.Compare(left=n.comparators[0], ops=[flips[type(n.ops[0])]()], comparators=[n.left])
+            return n
+
+        def visit_If(self, n):
+            self.generic_visit(n)
+            if n.orelse and not (len(n.orelse) == 1 and isinstance(n.orelse[0], ast.If)) and rnd.random() < 0.6:
+                n_changes[0] += 1
+                test = n.test.operand if isinstance(n.test, ast.UnaryOp) and isinstance(n.test.op, ast.Not) else ast.UnaryOp(op=ast.Not(), operand=n.test)
+                return ast.If(test=test, body=n.orelse, orelse=n.body)
+            return n
+
+        def visit_AugAssign(self, n):
+            self.generic_visit(n)
+            if (
+                isinstance(n.op, (ast.Add, ast.Sub)) and isinstance(n.value, ast.Constant) and isinstance(n.value.value, int)
+                and not isinstance(n.value.value, bool) and isinstance(n.target, (ast.Name, ast.Attribute)) and _is_path_expr(n.target)
+            ):
+                n_changes[0] += 1
+                import copy as _copy
+
+                load = _copy.deepcopy(n.target)
+                for x in ast.walk(load):
+                    if hasattr(x, "ctx"):
+                        x.ctx = ast.Load()
+                return ast.Assign(targets=[n.target], value=ast.BinOp(left=load, op=n.op, right=n.value))
+            return n
+
+    out = {}
+    for dp, _dn, fn in os.walk(os.path.join(root, "job_shop_lib")):
+        for f in fn:
+            if not f.endswith(".py"):
+                continue
+            full = os.path.join(dp, f)
+            rel = os.path.relpath(full, root)
+            if base is not None and rel in base:
+                src = base[rel]
+            else:
+                with open(full, encoding="utf-8") as fh:
+                    src = fh.read()
+            tree = ast.parse(src)
+            before = n_changes[0]
+            tree = T().visit(tree)
+            if n_changes[0] != before:
+                ast.fix_missing_locations(tree)
+                out[rel] = ast.unparse(tree) + "\n"
+    return out, n_changes[0]
